@@ -297,7 +297,7 @@ fn main() {
     let all_names: Vec<&str> = RUST_NAMES_QUICK.iter().chain(RUST_NAMES_MORE.iter()).copied().collect();
     let mut cases: Vec<Case> = Vec::new();
     // class A: every configuration in thorough; class B (per-position name worlds): quick configs
-    cases.extend(worlds::named_cases(if thorough { &all_names } else { RUST_NAMES_QUICK }, &["all"], "names"));
+    cases.extend(worlds::named_cases(RUST_NAMES_QUICK, &["all"], "names"));
     if !thorough {
         // namespace / package positions for three names (thorough: every name)
         cases.extend(worlds::named_cases(&["fn", "self", "vec"], &["namespace", "package"], "names"));
@@ -314,7 +314,10 @@ fn main() {
     let n_class_a = cases.len();
     if thorough {
         let positions: Vec<&str> = worlds::POSITIONS.iter().copied().filter(|p| *p != "all").collect();
-        cases.extend(worlds::named_cases(&all_names, &positions, "names-per-position"));
+        // budget (<= 30 min on 16 idle cores): the property's own name list in every position,
+        // the extended alphabet in the `all` position, both on the three quick configurations
+        cases.extend(worlds::named_cases(RUST_NAMES_QUICK, &positions, "names-per-position"));
+        cases.extend(worlds::named_cases(RUST_NAMES_MORE, &["all", "package"], "names-extended"));
     }
 
     let full = RConfig::all();
@@ -434,6 +437,7 @@ fn main() {
         "worlds": {"enumerated_full_factorial": n_class_a_enum, "corpus": n_class_a - n_class_a_enum, "corpus_total": corpus_total, "per_position_name_worlds": cases.len() - n_class_a},
         "bounds": {
             "name_alphabet": if thorough { all_names.clone() } else { RUST_NAMES_QUICK.to_vec() },
+            "positions_thorough_note": "property's name list: every position; extended alphabet: `all` and `package` only",
             "positions": if thorough { worlds::POSITIONS.to_vec() } else { vec!["all (= every position except namespace/package)", "namespace, package for fn/self/vec"] },
             "configurations_full": full.iter().map(|c| c.name()).collect::<Vec<_>>(),
             "configurations_quick": quick.iter().map(|c| c.name()).collect::<Vec<_>>(),
@@ -462,7 +466,7 @@ fn main() {
             "HashMap is only combined with std (std::collections::HashMap does not exist in no_std).".into(),
             "Warnings are not errors (-Dwarnings of crates/test is not used); default lint levels apply.".into(),
             "The wasm32 root crate references every public non-generic function of the bindings outside `exports` from an extra exported function `verif_keepalive` (paths collected with syn), so the linker keeps all import wrappers and all imports of the world must appear in the component; imports carrying only types may be elided by wit-component.".into(),
-            "Per-position name worlds (thorough) run on the three quick configurations only; the full 24-configuration factorial runs on the `all`-position name worlds, the other enumerated worlds and the corpus.".into(),
+            "Thorough: the full 24-configuration factorial (+ edition 2024 on the three quick configurations) runs on the `all`-position worlds of the property's own name list, the other enumerated worlds and the whole corpus; per-position worlds of that list and the extended alphabet (`all`, `package`) run on the three quick configurations.".into(),
         ],
     );
 }
